@@ -114,9 +114,31 @@ observed sequence of crash classes along the ticks of every call must equal `Cra
 correspondence obligation checked on every run by `vlib/crashweng.py`).  None of these calls is bracketed
 by a transaction.  All statements below are for EVERY store on which the call runs for the first time. -/
 
+set_option linter.unusedSimpArgs false
+
 open CrashCore in
 /-- the abstract store, with the dedup record absent, nothing decrypted yet, record and MLS state in step -/
 def coreFresh (kind : CrashCore.Kind) (d : CrashCore.Db) : Prop := CrashCore.fresh kind d = true
+
+/-- **hand_sequence_matches_source.**  The effect sequences the core-level theorems below talk about ARE the
+    sequences of durable write steps translated from the current source (`Generated.writeSeq`, regenerated on
+    every run by tools/writeseq.py), step by step replaced by their effect on the projection.  A source change
+    that reorders, adds or drops a durable write of one of these calls changes the generated table, this
+    theorem stops checking, and with it every prefix theorem that rewrites with it. -/
+theorem hand_sequence_matches_source :
+    CrashCore.writes .application = [.saveSecret, .consume, .saveMsg, .savePm 1, .setPtr] ∧
+    CrashCore.writes .commit = [.saveSecret, .consume, .snapshot, .bumpMls, .saveSecret, .syncRecord, .savePm 2] ∧
+    CrashCore.writes .welcome = [.saveGroup, .saveRelays, .saveWelcome, .savePw] ∧
+    CrashCore.writes .merge = [.dropPending, .bumpMls, .syncRecord] := by decide
+
+theorem writes_application : CrashCore.writes .application = [.saveSecret, .consume, .saveMsg, .savePm 1, .setPtr] :=
+  hand_sequence_matches_source.1
+theorem writes_commit : CrashCore.writes .commit = [.saveSecret, .consume, .snapshot, .bumpMls, .saveSecret, .syncRecord, .savePm 2] :=
+  hand_sequence_matches_source.2.1
+theorem writes_welcome : CrashCore.writes .welcome = [.saveGroup, .saveRelays, .saveWelcome, .savePw] :=
+  hand_sequence_matches_source.2.2.1
+theorem writes_merge : CrashCore.writes .merge = [.dropPending, .bumpMls, .syncRecord] :=
+  hand_sequence_matches_source.2.2.2
 
 theorem saveSecret_idem (d : CrashCore.Db) :
     CrashCore.applyW (CrashCore.applyW d .saveSecret) .saveSecret = CrashCore.applyW d .saveSecret := by
@@ -137,17 +159,17 @@ theorem core_application_prefix (d : CrashCore.Db) (hf : coreFresh .application 
   simp only [coreFresh, CrashCore.fresh, Bool.and_eq_true, beq_iff_eq, Bool.not_eq_true'] at hf
   obtain ⟨⟨⟨⟨h1, h2⟩, h3⟩, h4⟩, h5⟩ := hf
   refine ⟨?_, ?_, ?_, ?_, ?_⟩
-  · simp [CrashCore.recovered, CrashCore.crashAt, CrashCore.writes, CrashCore.run, CrashCore.retry, h1, h2]
+  · simp [CrashCore.recovered, CrashCore.crashAt, writes_application, writes_commit, writes_welcome, writes_merge, CrashCore.run, CrashCore.retry, h1, h2]
   · have : CrashCore.retry .application (CrashCore.crashAt .application 1 d) = CrashCore.complete .application d := by
-      simp only [CrashCore.crashAt, CrashCore.writes, CrashCore.run, List.take, List.foldl, CrashCore.retry]
+      simp only [CrashCore.crashAt, writes_application, writes_commit, writes_welcome, writes_merge, CrashCore.run, List.take, List.foldl, CrashCore.retry]
       have hp : (CrashCore.applyW d .saveSecret).pm = 0 := by simp [CrashCore.applyW, h1]
       have hc : (CrashCore.applyW d .saveSecret).consumed = false := by simp [CrashCore.applyW, h2]
       simp only [hp, hc]
-      simp [CrashCore.complete, CrashCore.writes, CrashCore.run, List.foldl, saveSecret_idem]
+      simp [CrashCore.complete, writes_application, writes_commit, writes_welcome, writes_merge, CrashCore.run, List.foldl, saveSecret_idem]
     simp [CrashCore.recovered, this]
-  · simp [CrashCore.recovered, CrashCore.obs, CrashCore.crashAt, CrashCore.writes, CrashCore.run, CrashCore.retry, CrashCore.complete, CrashCore.applyW, h1, h5]
-  · simp [CrashCore.recovered, CrashCore.obs, CrashCore.crashAt, CrashCore.writes, CrashCore.run, CrashCore.retry, CrashCore.complete, CrashCore.applyW, h1, h5]
-  · simp [CrashCore.recovered, CrashCore.obs, CrashCore.crashAt, CrashCore.writes, CrashCore.run, CrashCore.retry, CrashCore.complete, CrashCore.applyW, h5]
+  · simp [CrashCore.recovered, CrashCore.obs, CrashCore.crashAt, writes_application, writes_commit, writes_welcome, writes_merge, CrashCore.run, CrashCore.retry, CrashCore.complete, CrashCore.applyW, h1, h5]
+  · simp [CrashCore.recovered, CrashCore.obs, CrashCore.crashAt, writes_application, writes_commit, writes_welcome, writes_merge, CrashCore.run, CrashCore.retry, CrashCore.complete, CrashCore.applyW, h1, h5]
+  · simp [CrashCore.recovered, CrashCore.obs, CrashCore.crashAt, writes_application, writes_commit, writes_welcome, writes_merge, CrashCore.run, CrashCore.retry, CrashCore.complete, CrashCore.applyW, h5]
 
 /-- **core_commit_prefix.**  A commit of another member: recoverable only before the decryption; afterwards
     the retry is refused in every prefix — with the snapshot left behind, with the MLS rows already at the
@@ -159,20 +181,20 @@ theorem core_commit_prefix (d : CrashCore.Db) (hf : coreFresh .commit d) :
   simp only [coreFresh, CrashCore.fresh, Bool.and_eq_true, beq_iff_eq, Bool.not_eq_true'] at hf
   obtain ⟨⟨⟨h1, h2⟩, h3⟩, h4⟩ := hf
   refine ⟨?_, ?_, ?_, ?_⟩
-  · simp [CrashCore.recovered, CrashCore.crashAt, CrashCore.writes, CrashCore.run, CrashCore.retry, h1, h2]
+  · simp [CrashCore.recovered, CrashCore.crashAt, writes_application, writes_commit, writes_welcome, writes_merge, CrashCore.run, CrashCore.retry, h1, h2]
   · have : CrashCore.retry .commit (CrashCore.crashAt .commit 1 d) = CrashCore.complete .commit d := by
-      simp only [CrashCore.crashAt, CrashCore.writes, CrashCore.run, List.take, List.foldl, CrashCore.retry]
+      simp only [CrashCore.crashAt, writes_application, writes_commit, writes_welcome, writes_merge, CrashCore.run, List.take, List.foldl, CrashCore.retry]
       have hp : (CrashCore.applyW d .saveSecret).pm = 0 := by simp [CrashCore.applyW, h1]
       have hc : (CrashCore.applyW d .saveSecret).consumed = false := by simp [CrashCore.applyW, h2]
       simp only [hp, hc]
-      simp [CrashCore.complete, CrashCore.writes, CrashCore.run, List.foldl, saveSecret_idem]
+      simp [CrashCore.complete, writes_application, writes_commit, writes_welcome, writes_merge, CrashCore.run, List.foldl, saveSecret_idem]
     simp [CrashCore.recovered, this]
   · intro k hk1 hk2
     have : k = 2 ∨ k = 3 ∨ k = 4 ∨ k = 5 := by omega
     rcases this with e | e | e | e <;> subst e <;>
-      simp [CrashCore.recovered, CrashCore.obs, CrashCore.crashAt, CrashCore.writes, CrashCore.run, CrashCore.retry, CrashCore.complete, CrashCore.applyW, h1] <;>
+      simp [CrashCore.recovered, CrashCore.obs, CrashCore.crashAt, writes_application, writes_commit, writes_welcome, writes_merge, CrashCore.run, CrashCore.retry, CrashCore.complete, CrashCore.applyW, h1] <;>
       (try (intros; omega))
-  · simp [CrashCore.recovered, CrashCore.obs, CrashCore.crashAt, CrashCore.writes, CrashCore.run, CrashCore.retry, CrashCore.complete, CrashCore.applyW, h1]
+  · simp [CrashCore.recovered, CrashCore.obs, CrashCore.crashAt, writes_application, writes_commit, writes_welcome, writes_merge, CrashCore.run, CrashCore.retry, CrashCore.complete, CrashCore.applyW, h1]
 
 /-- **core_welcome_prefix.**  `process_welcome`: every prefix is recoverable — the group record and the
     relays are idempotent upserts, and since /repo fed41a9 the welcome is stored BEFORE its processed-welcome
@@ -185,13 +207,13 @@ theorem core_welcome_prefix (d : CrashCore.Db) (hf : coreFresh .welcome d) :
   intro k
   have : k = 0 ∨ k = 1 ∨ k = 2 ∨ k = 3 ∨ 4 ≤ k := by omega
   rcases this with e | e | e | e | e
-  · subst e; simp [CrashCore.recovered, CrashCore.obs, CrashCore.crashAt, CrashCore.writes, CrashCore.run, CrashCore.retry, CrashCore.complete, CrashCore.applyW, h2, h3]
-  · subst e; simp [CrashCore.recovered, CrashCore.obs, CrashCore.crashAt, CrashCore.writes, CrashCore.run, CrashCore.retry, CrashCore.complete, CrashCore.applyW, h2, h3]
-  · subst e; simp [CrashCore.recovered, CrashCore.obs, CrashCore.crashAt, CrashCore.writes, CrashCore.run, CrashCore.retry, CrashCore.complete, CrashCore.applyW, h2, h3]
-  · subst e; simp [CrashCore.recovered, CrashCore.obs, CrashCore.crashAt, CrashCore.writes, CrashCore.run, CrashCore.retry, CrashCore.complete, CrashCore.applyW, h2, h3]
-  · have ht : (CrashCore.writes .welcome).take k = CrashCore.writes .welcome := List.take_of_length_le (by simp [CrashCore.writes]; omega)
+  · subst e; simp [CrashCore.recovered, CrashCore.obs, CrashCore.crashAt, writes_application, writes_commit, writes_welcome, writes_merge, CrashCore.run, CrashCore.retry, CrashCore.complete, CrashCore.applyW, h2, h3]
+  · subst e; simp [CrashCore.recovered, CrashCore.obs, CrashCore.crashAt, writes_application, writes_commit, writes_welcome, writes_merge, CrashCore.run, CrashCore.retry, CrashCore.complete, CrashCore.applyW, h2, h3]
+  · subst e; simp [CrashCore.recovered, CrashCore.obs, CrashCore.crashAt, writes_application, writes_commit, writes_welcome, writes_merge, CrashCore.run, CrashCore.retry, CrashCore.complete, CrashCore.applyW, h2, h3]
+  · subst e; simp [CrashCore.recovered, CrashCore.obs, CrashCore.crashAt, writes_application, writes_commit, writes_welcome, writes_merge, CrashCore.run, CrashCore.retry, CrashCore.complete, CrashCore.applyW, h2, h3]
+  · have ht : (CrashCore.writes .welcome).take k = CrashCore.writes .welcome := List.take_of_length_le (by simp [writes_welcome]; omega)
     simp only [CrashCore.recovered, CrashCore.crashAt, ht]
-    simp [CrashCore.obs, CrashCore.writes, CrashCore.run, CrashCore.retry, CrashCore.complete, CrashCore.applyW]
+    simp [CrashCore.obs, writes_welcome, CrashCore.run, CrashCore.retry, CrashCore.complete, CrashCore.applyW]
 
 /-- **core_merge_prefix.**  `merge_pending_commit`: the pending commit is deleted FIRST; a death right after
     loses it (the commit was published, the others move on, this client can never apply its own commit); a
@@ -202,7 +224,7 @@ theorem core_merge_prefix (d : CrashCore.Db) (hf : coreFresh .merge d) :
   simp only [coreFresh, CrashCore.fresh, Bool.and_eq_true, beq_iff_eq] at hf
   obtain ⟨h1, h2⟩ := hf
   refine ⟨?_, ?_, ?_⟩ <;>
-    simp [CrashCore.recovered, CrashCore.obs, CrashCore.crashAt, CrashCore.writes, CrashCore.run, CrashCore.retry, CrashCore.complete, CrashCore.applyW, h1, h2]
+    simp [CrashCore.recovered, CrashCore.obs, CrashCore.crashAt, writes_application, writes_commit, writes_welcome, writes_merge, CrashCore.run, CrashCore.retry, CrashCore.complete, CrashCore.applyW, h1, h2]
 
 /-- the classification function is sound: whatever it calls recoverable is recovered, and nothing else is -/
 theorem core_classify_sound (kind : CrashCore.Kind) (d : CrashCore.Db) (hf : coreFresh kind d) (k : Nat)
@@ -211,11 +233,11 @@ theorem core_classify_sound (kind : CrashCore.Kind) (d : CrashCore.Db) (hf : cor
   cases kind with
   | application =>
     obtain ⟨a0, a1, a2, a3, a4⟩ := core_application_prefix d hf
-    have : k = 0 ∨ k = 1 ∨ k = 2 ∨ k = 3 ∨ k = 4 := by simp [CrashCore.writes] at hk; omega
+    have : k = 0 ∨ k = 1 ∨ k = 2 ∨ k = 3 ∨ k = 4 := by simp [writes_application, writes_commit, writes_welcome, writes_merge] at hk; omega
     rcases this with e | e | e | e | e <;> subst e <;> simp [CrashCore.classify, CrashCore.Class.harmless, *]
   | commit =>
     obtain ⟨a0, a1, a2, a3⟩ := core_commit_prefix d hf
-    have : k = 0 ∨ k = 1 ∨ (2 ≤ k ∧ k ≤ 5) ∨ k = 6 := by simp [CrashCore.writes] at hk; omega
+    have : k = 0 ∨ k = 1 ∨ (2 ≤ k ∧ k ≤ 5) ∨ k = 6 := by simp [writes_application, writes_commit, writes_welcome, writes_merge] at hk; omega
     rcases this with e | e | ⟨e1, e2⟩ | e
     · subst e; simp [CrashCore.classify, CrashCore.Class.harmless, a0]
     · subst e; simp [CrashCore.classify, CrashCore.Class.harmless, a1]
@@ -225,11 +247,11 @@ theorem core_classify_sound (kind : CrashCore.Kind) (d : CrashCore.Db) (hf : cor
     · subst e; simp [CrashCore.classify, CrashCore.Class.harmless, a3]
   | welcome =>
     have := core_welcome_prefix d hf k
-    have hk' : k = 0 ∨ k = 1 ∨ k = 2 ∨ k = 3 := by simp [CrashCore.writes] at hk; omega
+    have hk' : k = 0 ∨ k = 1 ∨ k = 2 ∨ k = 3 := by simp [writes_application, writes_commit, writes_welcome, writes_merge] at hk; omega
     rcases hk' with e | e | e | e <;> subst e <;> simp [CrashCore.classify, CrashCore.Class.harmless, this]
   | merge =>
     obtain ⟨a0, a1, a2⟩ := core_merge_prefix d hf
-    have : k = 0 ∨ k = 1 ∨ k = 2 := by simp [CrashCore.writes] at hk; omega
+    have : k = 0 ∨ k = 1 ∨ k = 2 := by simp [writes_application, writes_commit, writes_welcome, writes_merge] at hk; omega
     rcases this with e | e | e <;> subst e <;> simp [CrashCore.classify, CrashCore.Class.harmless, *]
 
 /-- the full-strength property at the mdk-core level: EVERY crash point of EVERY call is recoverable -/
